@@ -306,8 +306,9 @@ end control
 section struct
 open Frappy.ExtParams
 
-/-- **struct_members_agree** — for every layout (combined `read_/write_<struct>` methods or per-member
-methods, any subset of members with programmer-written methods), every history of client reads and writes of
+/-- **struct_members_agree** — for every layout (the programmer wrote `read_<struct>`, `write_<struct>`, both (combined
+layout) or neither (per-member layout), and in either layout `read_<m>` / `write_<m>` for any subset of the members),
+every history of client reads and writes of
 the struct and of its members and of driver-side assignments to either, and every outcome of the driver
 bodies (any returned value, `None`, a `SECoPError` or any other exception (`ExcKind`) — also at any member position in
 the middle of a generated struct access), at every
@@ -326,14 +327,16 @@ theorem struct_members_agree_from (cfg : Cfg) (s0 : St) (h0 : wf cfg s0.struct =
   obtain ⟨pre, op, post, _, rfl⟩ := mem_scan _ _ _ _ hs
   exact (inv_step cfg _ op (inv_exec cfg pre _ ⟨h0, h1⟩)).2
 
-def cfgA : Cfg := { members := ["p", "i", "d"], combined := true, hasR := fun _ => false, hasW := fun _ => false }
-def cfgB : Cfg := { members := ["p", "i", "d"], combined := false, hasR := fun m => m != "d", hasW := fun m => m != "d" }
+def cfgA : Cfg := { members := ["p", "i", "d"], hasRS := true, hasWS := true, hasR := fun _ => false, hasW := fun _ => false }
+def cfgB : Cfg := { members := ["p", "i", "d"], hasRS := false, hasWS := false, hasR := fun m => m != "d", hasW := fun m => m != "d" }
+/-- only `read_<struct>` written, and the programmer's own `read_i` next to it -/
+def cfgC : Cfg := { members := ["p", "i"], hasRS := true, hasWS := false, hasR := fun m => m == "i", hasW := fun _ => false }
 
 /-- non-vacuity, combined layout: a driver-side member assignment reaches the struct (F32), a member write goes
 through `write_<struct>` and `read_<struct>` -/
 example : (run cfgA (init cfgA) [
       .driverAssignMember "p" 9,
-      .writeMember "i" 5 .retNone (.ok [("p", 9), ("i", 4), ("d", 0)]) (.fail .value)]).map (fun s => (s.struct, s.mem, s.ok)) =
+      .writeMember "i" 5 .retNone (.ok [("p", 9), ("i", 4), ("d", 0)]) (.fail .value) (.fail .key)]).map (fun s => (s.struct, s.mem, s.ok)) =
     [([("p", 9), ("i", 0), ("d", 0)], [("p", 9), ("i", 0), ("d", 0)], true),
      ([("p", 9), ("i", 4), ("d", 0)], [("p", 9), ("i", 4), ("d", 0)], true)] := by decide
 
@@ -344,6 +347,14 @@ example : (run cfgB (init cfgB) [
       .readStruct (.fail .secop) (fun m => if m = "p" then .ok 7 else .fail .value)]).map (fun s => (s.struct, s.mem, s.ok)) =
     [([("p", 3), ("i", 4), ("d", 1)], [("p", 3), ("i", 4), ("d", 1)], true),
      ([("p", 7), ("i", 4), ("d", 1)], [("p", 7), ("i", 4), ("d", 1)], false)] := by decide
+
+/-- non-vacuity, mixed layout: a member write stores the struct through the plain `write_<struct>` wrapper and ends with
+the programmer's `read_i` (which reports 6, not the requested 5); a write of the other member ends with the generated
+read through `read_<struct>` -/
+example : (run cfgC (init cfgC) [
+      .writeMember "i" 5 (.fail .secop) (.fail .secop) .retNone (.ok 6),
+      .writeMember "p" 2 (.fail .secop) (.ok [("p", 3), ("i", 6)]) .retNone (.fail .key)]).map (fun s => (s.struct, s.mem, s.ok)) =
+    [([("p", 0), ("i", 6)], [("p", 0), ("i", 6)], true), ([("p", 3), ("i", 6)], [("p", 3), ("i", 6)], true)] := by decide
 
 /-- the monitor rejects what the pinned code did (member assigned, struct stale) -/
 example : membersAgreeB ["p", "i"] [("p", 7), ("i", 1)] [("p", 9), ("i", 1)] = false := by decide
